@@ -498,6 +498,12 @@ class AlignmentCollector:
             max_cov = coverage_dict[current_start]
             pos = min(current_start + 1, coverage_positions[-1] + 1)
 
+        if not split_regions:
+            # the whole region fits into a single coverage bin
+            return [genomic_region]
+        if split_regions[-1][1] < genomic_region[1]:
+            # the last split point is in the last bin: the tail after it is a region of its own
+            split_regions.append((split_regions[-1][1] + 1, genomic_region[1]))
         return split_regions
 
     @staticmethod
